@@ -243,3 +243,9 @@ Definition classify_block (pre : list bop) (block : text) : option (bool * bool 
   | None => None
   | Some (st, _) => Some (start_state_b st, balanced_lines (rust_lines block), char_balanced block)
   end.
+
+(** a brace-neutral one-line piece: no '\n', and after trimming it neither starts with '}' or "//" nor ends
+    with '{' (what [uwrite!] appends in the middle of a line most of the time) *)
+Definition inert (p : text) : bool :=
+  negb (has_lf p) && negb (starts_with_c RBRACE (trim p)) && negb (starts_with_slashes (trim p))
+  && negb (ends_with_c LBRACE (trim p)).
